@@ -104,8 +104,26 @@ def main(argv):
             mod.replay(ctx, case.get('case', case))
         else:
             mod.run_shard(ctx)
-    except BaseException as e:  # a crash of the harness itself is never a verdict
-        crashed = ''.join(traceback.format_exception(type(e), e, e.__traceback__))[-4000:]
+    except BaseException as e:
+        text = ''.join(traceback.format_exception(type(e), e, e.__traceback__))[-4000:]
+        tb = e.__traceback__
+        root = os.path.realpath(os.path.join(common.REPO, 'fsic')) + os.sep
+        innermost = ''
+        while tb is not None:
+            fn = os.path.realpath(tb.tb_frame.f_code.co_filename)
+            if fn.startswith(root):
+                innermost = fn          # deepest frame of the code under test the exception passed through
+                lineno = tb.tb_lineno
+            tb = tb.tb_next
+        if innermost and isinstance(e, Exception):
+            # the exception was raised *inside the code under test* on an input for which the unchanged tree raises nothing
+            # (every check runs clean there): that is an observation about the code, reported with the case being explored
+            ctx.violation('exception-from-code-under-test', f'{type(e).__name__}: {e} (propagated out of {innermost}:{lineno}) while exploring the case; traceback tail: {text[-1200:]}',
+                          {'last_case': common.jsonable(ctx.last_case)})
+            ctx.inconclusive_because('shard stopped early after an exception from the code under test')
+        else:
+            # a crash of the harness itself is never a verdict
+            crashed = text
     finally:
         cov.stop()
     res = ctx.result()
